@@ -130,6 +130,18 @@ def handPrograms : List (String × Program) :=
       [file "M" [.enum [] [] false false "V" none [enr "A" (some 0), enr "B" (some 5) (some []), enr "C" none (some [fld "x" (tr (pr .bool))]),
                                                     enr "D" (some tagMax) (some [fld "y" (tr (pr .string) true) (some 0), fld "z" (tr (pr .int8))])],
                  .enum [] [] true false "W" none [enr "A" none (some [fld "x" (tr (.seq (tr (pr .bool))))]), enr "B"]]]),
+    ("same-name-across-modules",
+      [file "Geometry" [.struct [] [] false "Point" [fld "x" (tr (pr .float64)), fld "y" (tr (pr .float64))], .custom [] [] "Id",
+                        .enum [] [] false false "Kind" (some (tr (pr .uint8))) [enr "A"]],
+       file "Screen" [.struct [] [] true "Point" [fld "x" (tr (pr .int32)), fld "y" (tr (pr .int32))], .enum [] [] false false "Id" (some (tr (pr .uint8))) [enr "Red", enr "Green"],
+                      .custom [] [] "Kind"],
+       file "Drawing" [.struct [] [] false "Segment" [fld "start" (tr (.named "Geometry::Point")), fld "end" (tr (.named "Geometry::Point"))],
+                       .struct [] [] false "Blit" [fld "source" (tr (.named "Geometry::Point")), fld "target" (tr (.named "Screen::Point")),
+                                                    fld "tint" (tr (.named "Screen::Id")), fld "id" (tr (.named "Geometry::Id") true),
+                                                    fld "k1" (tr (.named "Screen::Kind")), fld "k2" (tr (.named "Geometry::Kind"))],
+                       .iface [] [] "Canvas" [] [mkOp [] [] false "project" [prm "p" (tr (.named "Geometry::Point"))]
+                                                   (.single none false (tr (.seq (tr (.named "Screen::Point")))))],
+                       .struct [] [] false "Point" [fld "g" (tr (.named "Geometry::Point")), fld "s" (tr (.named "Screen::Point"))]]]),
     ("keywords-as-names",
       [file "M" [.struct [] [] false "struct" [fld "string" (tr (pr .string)), fld "tag" (tr (pr .bool))],
                  .struct [] [] false "S" [fld "module" (tr (.named "struct"))]]]),
